@@ -96,8 +96,19 @@ func (g *pgen) objectSchema(depth int, compose bool) (jmap, func() interface{}) 
 		patGen = pg
 	}
 	var composeGens []func(m jmap)
+	var kws []string
 	if compose && depth > 0 && g.rng.Intn(2) == 0 {
-		kw := g.sg.pick([]string{"allOf", "anyOf", "oneOf"})
+		// one composition keyword, or several side by side on the same schema
+		for _, kw := range []string{"allOf", "anyOf", "oneOf"} {
+			if g.rng.Intn(2) == 0 {
+				kws = append(kws, kw)
+			}
+		}
+		if len(kws) == 0 {
+			kws = []string{g.sg.pick([]string{"allOf", "anyOf", "oneOf"})}
+		}
+	}
+	for _, kw := range kws {
 		cs, cg := g.objectSchema(depth-1, false)
 		delete(cs, "additionalProperties")
 		if kw == "oneOf" {
